@@ -289,6 +289,7 @@ func TestVerifC13Start(t *testing.T) {
 	log.Info("warm up the logger outside the bubble")
 	schedQuiet()
 	sched.StartWatchdog(90 * time.Second)
+	VerifReleaseOutsidePools()
 	bound := 2
 	if ev.Thorough() {
 		bound = 3
